@@ -139,6 +139,43 @@ static void s_limiter(long c) { int t = 1 + (int)(c % 2); c /= 2; int n = 3 + (i
       vf_outcome("limiter t=%d %s fwd=%zu rejected_puts=%d recv_rejects=%d maxout=%d", t, trace.c_str(), R.got.size(), rejected_puts, R.rejected, R.maxout); }
     vtbb::finish();
 }
+// ================================================================ limiter with an integral decrementer; decrements may arrive while a put is in flight
+// limiter_node<int,int>: the decrement value d is an integer.  A decrement can arrive while a put attempt is still inside the successor
+// (the limiter counts it as an active try, not yet as forwarded): here the receiver itself sends it from inside its k-th accepted
+// try_put_task (the limiter holds no lock of its own during that call).  Every decrement sent is at most the number of messages the
+// receiver has accepted and that are not yet decremented, so "un-decremented forwarded messages" is unambiguous: accepted - decremented.
+struct TestRecvI : receiver<int> { graph& g; limiter_node<int, int>* lim = nullptr; std::vector<int> got; int outstanding = 0, threshold; bool accept_all = false; int rejected = 0, accepts = 0, inside_at, inside_d;
+    TestRecvI(graph& gr, int t, int k, int d) : g(gr), threshold(t), inside_at(k), inside_d(d) {}
+    graph_task* try_put_task(const int& v) override { if (!accept_all && vf_choose(2)) { rejected++; return nullptr; }
+        if (std::find(got.begin(), got.end(), v) != got.end()) vf_fail("limiter_node forwarded message %d twice", v);
+        got.push_back(v); if (++outstanding > threshold) vf_fail("limiter_node<int,int>(threshold %d) forwarded message %d while %d forwarded messages are not yet decremented", threshold, v, outstanding - 1);
+        if (++accepts == inside_at && inside_d <= outstanding) { outstanding -= inside_d; lim->decrementer().try_put(inside_d); }
+        return SUCCESSFULLY_ENQUEUED; }
+    graph& graph_reference() const override { return g; } };
+static void s_limiter_int(long c) { int t = 2 + (int)(c % 2); c /= 2; int k = (int)(c % 4); c /= 4; int dd = 1 + (int)(c % 2); c /= 2; int n = 3 + (int)(c % 3); c /= 3; long prog = c;   // digit (base 4): 0 queued put, 1 direct put, 2 decrement 1, 3 decrement 2
+    vtbb::init(2); int puts = 0; std::vector<int> queued, direct_ok, direct_rej; std::string trace;
+    { graph g; queue_node<int> Q(g); limiter_node<int, int> L(g, (size_t)t); TestRecvI R(g, t, k, dd); R.lim = &L; make_edge(Q, L); make_edge(L, R);
+      for (int i = 0; i < n; i++) { int op = (int)(prog % 4); prog /= 4;
+          // a decrement sent from inside the successor must not find a queued item to forward: the forward would re-enter the limiter's
+          // successor cache, whose lock the outer try_put still holds (a documented limitation of re-entrant lightweight cycles, not a
+          // property of the limiter) - with an inside decrement all puts are direct puts
+          if (k > 0 && op == 0) op = 1;
+          trace += "QL12"[op];
+          if (op >= 2) { int d = op - 1; if (d <= R.outstanding) { R.outstanding -= d; L.decrementer().try_put(d); } else trace += '-'; }
+          else if (op == 0) { int v = ++puts; if (!Q.try_put(v)) vf_fail("queue_node rejected %d", v); queued.push_back(v); }
+          else { int v = ++puts; if (L.try_put(v)) direct_ok.push_back(v); else direct_rej.push_back(v); }
+          pump(); }
+      g.wait_for_all();
+      for (int v : direct_ok) if (std::find(R.got.begin(), R.got.end(), v) == R.got.end()) vf_fail("limiter_node<int,int> accepted message %d from try_put but never forwarded it [%s k=%d d=%d]", v, trace.c_str(), k, dd);
+      for (int v : direct_rej) if (std::find(R.got.begin(), R.got.end(), v) != R.got.end()) vf_fail("limiter_node<int,int> forwarded message %d although try_put reported it rejected [%s]", v, trace.c_str());
+      R.accept_all = true; size_t want = queued.size() + direct_ok.size();
+      for (size_t round = 0; round < want + t + 2; round++) { g.wait_for_all(); if (R.got.size() == want || R.outstanding == 0) break; R.outstanding--; L.decrementer().try_put(1); }
+      g.wait_for_all();
+      std::vector<int> a = queued, b; a.insert(a.end(), direct_ok.begin(), direct_ok.end()); b = R.got; std::sort(a.begin(), a.end()); std::sort(b.begin(), b.end());
+      if (a != b) vf_fail("limiter_node<int,int>: %zu messages were accepted or queued but %zu came through after the receiver accepted everything and all forwarded messages were decremented [%s k=%d d=%d]", a.size(), b.size(), trace.c_str(), k, dd);
+      vf_outcome("limiter-int t=%d k=%d d=%d %s fwd=%zu recv_rejects=%d", t, k, dd, trace.c_str(), R.got.size(), R.rejected); }
+    vtbb::finish();
+}
 // ================================================================ overwrite_node / write_once_node
 static void s_ow(long c) { int once = (int)(c % 2); c /= 2; int n = 4; int ops[4]; for (int i = 0; i < n; i++) { ops[i] = (int)(c % 3); c /= 3; }   // 0 put next value, 1 add a successor, 2 try_get
     vtbb::init(2); std::string trace; int nsucc = 0; for (int i = 0; i < n; i++) nsucc += ops[i] == 1; if (nsucc > 2) { vf_outcome("skip"); return; }
@@ -172,7 +209,7 @@ static std::vector<Block> blocks; static const char* only = nullptr; static cons
 static void scenario(long c) { for (auto& b : blocks) { if (c < b.count) { b.fn(c); return; } c -= b.count; } }
 int main(int argc, char** argv) {
     for (int i = 1; i + 1 < argc; i++) if (!strcmp(argv[i], "-p")) { if (!strncmp(argv[i + 1], "only=", 5)) only = argv[i + 1] + 5; if (!strncmp(argv[i + 1], "skip=", 5)) skip = argv[i + 1] + 5; if (!strncmp(argv[i + 1], "depth=", 6)) DEPTH = atoi(argv[i + 1] + 6); if (!strncmp(argv[i + 1], "prefills=", 9)) { PREFILLS.clear(); for (const char* q = argv[i + 1] + 9; *q;) { PREFILLS.push_back((int)strtol(q, (char**)&q, 10)); if (*q == '.') q++; } } }
-    Block all[] = {{"seq", 4 * (long)PREFILLS.size() * seq_count(DEPTH), s_seq}, {"seqr", 3 * 2 * 3 * 24, s_seqr}, {"join", 3 * 3 * 3 * 2 * 3 * 64, s_join}, {"limiter", 2 * 3 * 243, s_limiter}, {"ow", 2 * 81, s_ow}, {"route", 3 * 3 * 2, s_route}};
+    Block all[] = {{"seq", 4 * (long)PREFILLS.size() * seq_count(DEPTH), s_seq}, {"seqr", 3 * 2 * 3 * 24, s_seqr}, {"join", 3 * 3 * 3 * 2 * 3 * 64, s_join}, {"limiter", 2 * 3 * 243, s_limiter}, {"limiterint", 2 * 4 * 2 * 3 * 1024, s_limiter_int}, {"ow", 2 * 81, s_ow}, {"route", 3 * 3 * 2, s_route}};
     for (auto& b : all) if ((!only || !strcmp(only, b.name)) && (!skip || strcmp(skip, b.name))) blocks.push_back(b);
     long n = 0; for (auto& b : blocks) n += b.count; return vf_main_cases(argc, argv, n, scenario);
 }
